@@ -1,5 +1,8 @@
-(* NumeralsProofs.v — the executable comparison of Numerals.v is exact rational comparison. *)
-From Coq Require Import ZArith QArith Qpower Lia List Bool.
+(* NumeralsProofs.v — the executable comparison of Numerals.v is exact rational comparison;
+   the digits of Numerals.v are the blocks of Generated.unicode_zero_digits; reading a numeral is reading
+   its ASCII transliteration with the ASCII-only reader (parse_int_normalise / parse_dec_normalise), hence
+   nothing changes on ASCII strings (parse_int_ascii_unchanged); every number has a numeral. *)
+From Coq Require Import ZArith QArith Qpower Lia List Bool ZifyBool.
 Require Import OJD.Base OJD.Numerals OJD.NumeralsSpec.
 Import ListNotations.
 
@@ -127,6 +130,299 @@ Proof.
     + intros [H _]. exact H.
 Qed.
 
+(* ---------- the digits: table, values, ASCII transliteration ---------- *)
+
+Local Open Scope N_scope.
+
+(* [is_digit] (an unrolled disjunction) is the lookup in the generated table *)
+Lemma is_digit_table : forall c, is_digit c = existsb (in_block c) OJD.Generated.unicode_zero_digits.
+Proof. reflexivity. Qed.
+
+Lemma table_head : OJD.Generated.unicode_zero_digits = 48 :: tl OJD.Generated.unicode_zero_digits.
+Proof. reflexivity. Qed.
+
+Lemma block_zero_some : forall tbl c, existsb (in_block c) tbl = true ->
+  exists z, block_zero tbl c = Some z /\ in_block c z = true.
+Proof.
+  induction tbl as [|z r IH]; intros c H; [discriminate|].
+  cbn [existsb block_zero] in *. destruct (in_block c z) eqn:E.
+  - exists z. split; [reflexivity|exact E].
+  - cbn [orb] in H. apply IH. exact H.
+Qed.
+
+Lemma block_zero_none : forall tbl c, existsb (in_block c) tbl = false -> block_zero tbl c = None.
+Proof.
+  induction tbl as [|z r IH]; intros c H; [reflexivity|].
+  cbn [existsb block_zero] in *. destruct (in_block c z) eqn:E; [discriminate|]. apply IH. exact H.
+Qed.
+
+(* a digit has a block, and its value is its offset there *)
+Lemma digit_block : forall c, is_digit c = true ->
+  exists z, z <= c /\ c <= z + 9 /\ digit_val c = Z.of_N (c - z).
+Proof.
+  intros c H. rewrite is_digit_table in H. destruct (block_zero_some _ _ H) as [z [Ez Eb]].
+  exists z. unfold digit_val. rewrite Ez. unfold in_block in Eb. apply andb_true_iff in Eb.
+  destruct Eb as [E1 E2]. apply N.leb_le in E1. apply N.leb_le in E2. repeat split; assumption.
+Qed.
+
+Lemma digit_val_range : forall c, is_digit c = true -> (0 <= digit_val c <= 9)%Z.
+Proof. intros c H. destruct (digit_block c H) as [z [H1 [H2 ->]]]. lia. Qed.
+
+Lemma digit_val_nondigit : forall c, is_digit c = false -> digit_val c = 0%Z.
+Proof. intros c H. rewrite is_digit_table in H. unfold digit_val. rewrite (block_zero_none _ _ H). reflexivity. Qed.
+
+(* ASCII: the first block *)
+Lemma is_digit_ascii_digit : forall c, is_digit_ascii c = true -> is_digit c = true.
+Proof. intros c H. unfold is_digit_ascii in H. unfold is_digit. lia. Qed.
+
+Lemma is_digit_below_128 : forall c, c < 128 -> is_digit c = is_digit_ascii c.
+Proof. intros c H. unfold is_digit, is_digit_ascii. lia. Qed.
+
+Lemma digit_val_ascii_eq : forall c, is_digit_ascii c = true -> digit_val c = digit_val_ascii c.
+Proof.
+  intros c H. unfold digit_val, digit_val_ascii. rewrite table_head. cbn [block_zero].
+  assert (E : in_block c 48 = true) by (unfold in_block; unfold is_digit_ascii in H; lia).
+  rewrite E. reflexivity.
+Qed.
+
+(* the transliteration: a digit becomes the ASCII digit of the same value, nothing else moves *)
+Lemma ascii_digit_digit : forall c, is_digit c = true ->
+  is_digit_ascii (ascii_digit c) = true /\ digit_val_ascii (ascii_digit c) = digit_val c.
+Proof.
+  intros c H. unfold ascii_digit. rewrite H. pose proof (digit_val_range c H) as R.
+  unfold is_digit_ascii, digit_val_ascii. split; lia.
+Qed.
+
+Lemma ascii_digit_other : forall c, is_digit c = false -> ascii_digit c = c /\ is_digit_ascii c = false.
+Proof.
+  intros c H. unfold ascii_digit. rewrite H. split; [reflexivity|].
+  destruct (is_digit_ascii c) eqn:E; [|reflexivity]. apply is_digit_ascii_digit in E. congruence.
+Qed.
+
+Lemma ascii_digit_class : forall c, is_digit_ascii (ascii_digit c) = is_digit c.
+Proof.
+  intros c. destruct (is_digit c) eqn:E.
+  - apply ascii_digit_digit. exact E.
+  - destruct (ascii_digit_other c E) as [-> E2]. exact E2.
+Qed.
+
+Lemma ascii_digit_below_128 : forall c, c < 128 -> ascii_digit c = c.
+Proof.
+  intros c H. unfold ascii_digit. destruct (is_digit c) eqn:E; [|reflexivity].
+  rewrite is_digit_below_128 in E by exact H. rewrite (digit_val_ascii_eq c E).
+  unfold digit_val_ascii. unfold is_digit_ascii in E. lia.
+Qed.
+
+Lemma ascii_digit_map_id : forall s, Forall (fun c => c < 128) s -> map ascii_digit s = s.
+Proof.
+  induction s as [|c r IH]; intro H; [reflexivity|]. inversion H as [|x l Hc Hr]; subst.
+  cbn [map]. rewrite (ascii_digit_below_128 c Hc), (IH Hr). reflexivity.
+Qed.
+
+(* comparing with a character that is no digit *)
+Lemma ascii_digit_eqb : forall x c, is_digit x = false -> (ascii_digit c =? x) = (c =? x).
+Proof.
+  intros x c Hx. destruct (is_digit c) eqn:E.
+  - destruct (ascii_digit_digit c E) as [A _]. apply is_digit_ascii_digit in A.
+    assert (N1 : (ascii_digit c =? x) = false) by (apply N.eqb_neq; intro K; rewrite K in A; congruence).
+    assert (N2 : (c =? x) = false) by (apply N.eqb_neq; intro K; rewrite K in E; congruence).
+    rewrite N1, N2. reflexivity.
+  - destruct (ascii_digit_other c E) as [-> _]. reflexivity.
+Qed.
+
+Lemma eqb_ascii_digit : forall x c, is_digit x = false -> (x =? ascii_digit c) = (x =? c).
+Proof. intros x c Hx. rewrite (N.eqb_sym x (ascii_digit c)), (N.eqb_sym x c). apply ascii_digit_eqb. exact Hx. Qed.
+
+(* F4: no digit is white space, so the two white-space classes do not see the transliteration *)
+Lemma digit_not_space : forall c, is_digit c = true -> int_space c = false /\ dec_space c = false.
+Proof. intros c H. unfold is_digit in H. unfold dec_space, int_space, uni_space. split; lia. Qed.
+
+Lemma ascii_digit_int_space : forall c, int_space (ascii_digit c) = int_space c.
+Proof.
+  intros c. destruct (is_digit c) eqn:E.
+  - destruct (ascii_digit_digit c E) as [A _]. apply is_digit_ascii_digit in A.
+    rewrite (proj1 (digit_not_space _ A)), (proj1 (digit_not_space _ E)). reflexivity.
+  - destruct (ascii_digit_other c E) as [-> _]. reflexivity.
+Qed.
+
+Lemma ascii_digit_dec_space : forall c, dec_space (ascii_digit c) = dec_space c.
+Proof.
+  intros c. destruct (is_digit c) eqn:E.
+  - destruct (ascii_digit_digit c E) as [A _]. apply is_digit_ascii_digit in A.
+    rewrite (proj2 (digit_not_space _ A)), (proj2 (digit_not_space _ E)). reflexivity.
+  - destruct (ascii_digit_other c E) as [-> _]. reflexivity.
+Qed.
+
+(* F6: letters are ASCII letters: lowering and transliterating commute *)
+Lemma lower_ascii_digit : forall c, lower (ascii_digit c) = ascii_digit (lower c).
+Proof.
+  intros c. destruct (is_digit c) eqn:E.
+  - assert (L : lower c = c) by (unfold lower; unfold is_digit in E; replace ((65 <=? c) && (c <=? 90)) with false by lia; reflexivity).
+    rewrite L. destruct (ascii_digit_digit c E) as [A _]. unfold lower. unfold is_digit_ascii in A.
+    replace ((65 <=? ascii_digit c) && (ascii_digit c <=? 90)) with false by lia. reflexivity.
+  - destruct (ascii_digit_other c E) as [-> _]. unfold lower. destruct ((65 <=? c) && (c <=? 90)) eqn:U.
+    + assert (D : is_digit (c + 32) = false) by (unfold is_digit; lia).
+      destruct (ascii_digit_other _ D) as [-> _]. reflexivity.
+    + destruct (ascii_digit_other c E) as [-> _]. reflexivity.
+Qed.
+
+(* ---------- reading = transliterating, then reading with the ASCII-only reader ---------- *)
+
+Lemma drop_while_map : forall (p : N -> bool) (f : N -> N), (forall c, p (f c) = p c) ->
+  forall s, drop_while p (map f s) = map f (drop_while p s).
+Proof.
+  intros p f H. induction s as [|c r IH]; [reflexivity|]. cbn [map drop_while]. rewrite H.
+  destruct (p c); [exact IH|reflexivity].
+Qed.
+
+Lemma strip_map : forall (p : N -> bool) (f : N -> N), (forall c, p (f c) = p c) ->
+  forall s, strip p (map f s) = map f (strip p s).
+Proof.
+  intros p f H s. unfold strip. rewrite (drop_while_map p f H), <- map_rev, (drop_while_map p f H), map_rev.
+  reflexivity.
+Qed.
+
+Lemma filter_map_class : forall (q : N -> bool) (f : N -> N), (forall c, q (f c) = q c) ->
+  forall s, filter q (map f s) = map f (filter q s).
+Proof.
+  intros q f H. induction s as [|c r IH]; [reflexivity|]. cbn [map filter]. rewrite H.
+  destruct (q c); [cbn [map]; f_equal; exact IH|exact IH].
+Qed.
+
+Lemma skipn_map_comm : forall (f : N -> N) n s, skipn n (map f s) = map f (skipn n s).
+Proof. intros f. induction n as [|n IH]; intros [|c r]; try reflexivity. cbn [map skipn]. apply IH. Qed.
+
+Lemma split_sign_norm : forall t,
+  split_sign (map ascii_digit t) = (fst (split_sign t), map ascii_digit (snd (split_sign t))).
+Proof.
+  intros [|c r]; [reflexivity|]. cbn [map split_sign].
+  rewrite (ascii_digit_eqb 43 c eq_refl), (ascii_digit_eqb 45 c eq_refl).
+  destruct (c =? 43); [reflexivity|]. destruct (c =? 45); reflexivity.
+Qed.
+
+Lemma int_digits_norm : forall s acc prev,
+  int_digits_ascii acc prev (map ascii_digit s) = int_digits acc prev s.
+Proof.
+  induction s as [|c r IH]; intros acc prev; [reflexivity|].
+  cbn [map int_digits_ascii int_digits]. rewrite ascii_digit_class. destruct (is_digit c) eqn:E.
+  - rewrite (proj2 (ascii_digit_digit c E)). apply IH.
+  - rewrite (proj1 (ascii_digit_other c E)). destruct ((c =? 95) && prev); [apply IH|reflexivity].
+Qed.
+
+Theorem parse_int_normalise : forall s, parse_int s = parse_int_ascii (map ascii_digit s).
+Proof.
+  intro s. unfold parse_int, parse_int_ascii.
+  rewrite (strip_map int_space ascii_digit ascii_digit_int_space), split_sign_norm.
+  destruct (split_sign (strip int_space s)) as [neg r]. cbn [fst snd]. rewrite int_digits_norm. reflexivity.
+Qed.
+
+Lemma take_digits_norm : forall s acc n,
+  take_digits_ascii acc n (map ascii_digit s) =
+  (fst (fst (take_digits acc n s)), snd (fst (take_digits acc n s)), map ascii_digit (snd (take_digits acc n s))).
+Proof.
+  induction s as [|c r IH]; intros acc n; [reflexivity|].
+  cbn [map take_digits_ascii take_digits]. rewrite ascii_digit_class. destruct (is_digit c) eqn:E.
+  - rewrite (proj2 (ascii_digit_digit c E)). apply IH.
+  - reflexivity.
+Qed.
+
+Lemma forallb_digit_norm : forall s, forallb is_digit_ascii (map ascii_digit s) = forallb is_digit s.
+Proof.
+  induction s as [|c r IH]; [reflexivity|]. cbn [map forallb]. rewrite ascii_digit_class, IH. reflexivity.
+Qed.
+
+Lemma str_eqb_norm : forall w l, forallb (fun x => negb (is_digit x)) w = true ->
+  str_eqb (map ascii_digit l) w = str_eqb l w.
+Proof.
+  induction w as [|x w IH]; intros [|c l] H; try reflexivity.
+  cbn [forallb] in H. apply andb_true_iff in H. destruct H as [Hx Hw]. apply negb_true_iff in Hx.
+  cbn [map str_eqb]. rewrite (ascii_digit_eqb x c Hx), (IH l Hw). reflexivity.
+Qed.
+
+Lemma is_prefix_norm : forall w l, forallb (fun x => negb (is_digit x)) w = true ->
+  is_prefix w (map ascii_digit l) = is_prefix w l.
+Proof.
+  induction w as [|x w IH]; intros l H; [reflexivity|]. destruct l as [|c l]; [reflexivity|].
+  cbn [forallb] in H. apply andb_true_iff in H. destruct H as [Hx Hw]. apply negb_true_iff in Hx.
+  cbn [map is_prefix]. rewrite (eqb_ascii_digit x c Hx), (IH l Hw). reflexivity.
+Qed.
+
+Lemma map_lower_norm : forall t, map lower (map ascii_digit t) = map ascii_digit (map lower t).
+Proof.
+  induction t as [|c r IH]; [reflexivity|]. cbn [map]. rewrite lower_ascii_digit, IH. reflexivity.
+Qed.
+
+Lemma take_fraction_norm : forall ip r1,
+  take_fraction_ascii ip (map ascii_digit r1) =
+  (fst (fst (take_fraction ip r1)), snd (fst (take_fraction ip r1)), map ascii_digit (snd (take_fraction ip r1))).
+Proof.
+  intros ip [|c r]; [reflexivity|]. cbn [map take_fraction_ascii take_fraction].
+  rewrite (ascii_digit_eqb 46 c eq_refl). destruct (c =? 46); [apply take_digits_norm|reflexivity].
+Qed.
+
+Lemma is_nil_map : forall (f : N -> N) l, is_nil (map f l) = is_nil l.
+Proof. intros f [|c r]; reflexivity. Qed.
+
+Lemma take_exponent_norm : forall r2, take_exponent_ascii (map ascii_digit r2) = take_exponent r2.
+Proof.
+  intros [|c r3]; [reflexivity|]. cbn [map take_exponent_ascii take_exponent].
+  rewrite (ascii_digit_eqb 101 c eq_refl), (ascii_digit_eqb 69 c eq_refl).
+  destruct ((c =? 101) || (c =? 69)); [|reflexivity].
+  rewrite split_sign_norm. destruct (split_sign r3) as [neg r4]. cbn [fst snd].
+  rewrite take_digits_norm. destruct (take_digits 0 0 r4) as [[x nx] r5]. cbn [fst snd].
+  rewrite is_nil_map. reflexivity.
+Qed.
+
+Lemma parse_unsigned_norm : forall neg t, parse_unsigned_ascii neg (map ascii_digit t) = parse_unsigned neg t.
+Proof.
+  intros neg t. unfold parse_unsigned_ascii, parse_unsigned. cbv zeta.
+  rewrite map_lower_norm.
+  rewrite (str_eqb_norm s_inf _ eq_refl), (str_eqb_norm s_infinity _ eq_refl),
+          (is_prefix_norm s_nan _ eq_refl), (is_prefix_norm s_snan _ eq_refl).
+  rewrite !skipn_map_comm, !forallb_digit_norm.
+  destruct (str_eqb (map lower t) s_inf || str_eqb (map lower t) s_infinity); [reflexivity|].
+  destruct (is_prefix s_nan (map lower t)); [reflexivity|].
+  destruct (is_prefix s_snan (map lower t)); [reflexivity|].
+  rewrite take_digits_norm. destruct (take_digits 0 0 t) as [[ip ni] r1]. cbn [fst snd].
+  rewrite take_fraction_norm. destruct (take_fraction ip r1) as [[m nf] r2]. cbn [fst snd].
+  rewrite take_exponent_norm. reflexivity.
+Qed.
+
+Theorem parse_dec_normalise : forall s, parse_dec s = parse_dec_ascii (map ascii_digit s).
+Proof.
+  intro s. unfold parse_dec, parse_dec_ascii.
+  rewrite (strip_map dec_space ascii_digit ascii_digit_dec_space).
+  rewrite (filter_map_class (fun c => negb (c =? 95)) ascii_digit)
+    by (intro c; rewrite (ascii_digit_eqb 95 c eq_refl); reflexivity).
+  rewrite split_sign_norm.
+  destruct (split_sign (filter (fun c => negb (c =? 95)) (strip dec_space s))) as [neg r]. cbn [fst snd].
+  rewrite parse_unsigned_norm. reflexivity.
+Qed.
+
+(* conservativity: on strings of ASCII characters nothing has changed *)
+Theorem parse_int_ascii_unchanged : forall s, Forall (fun c => c < 128) s ->
+  parse_int s = parse_int_ascii s /\ parse_dec s = parse_dec_ascii s.
+Proof.
+  intros s H. rewrite parse_int_normalise, parse_dec_normalise, (ascii_digit_map_id s H). split; reflexivity.
+Qed.
+
+(* mixed scripts (F1, F2, F5): "１_٢7" (fullwidth 1, underscore, Arabic-Indic 2, ASCII 7),
+   "-١.٥e-１" (Arabic-Indic 1 and 5, fullwidth exponent 1), "NaN𝟗" (mathematical bold 9) *)
+Example parse_int_mixed_scripts :
+  parse_int [65297; 95; 1634; 55] = Some 127%Z /\ parse_int_ascii [65297; 95; 1634; 55] = None.
+Proof. split; reflexivity. Qed.
+
+Example parse_dec_mixed_scripts :
+  parse_dec [45; 1633; 46; 1637; 101; 45; 65297] = Some (Fin (-15) (-2)) /\
+  parse_dec [78; 97; 78; 120791] = Some NaN /\
+  parse_dec_ascii [45; 1633; 46; 1637; 101; 45; 65297] = None.
+Proof. repeat split; reflexivity. Qed.
+
+(* F3, F6: signs, the decimal point and the exponent letter stay ASCII: "＋1", "１．５", "1ｅ1" *)
+Example parse_non_ascii_punctuation :
+  parse_int [65291; 49] = None /\ parse_dec [65297; 65294; 65301] = None /\ parse_dec [49; 65349; 49] = None.
+Proof. repeat split; reflexivity. Qed.
+
 (* ---------- every number has a numeral: printing, and parsing it back ----------
    (used to exhibit witnesses of satisfiability; proof-side only, never extracted) *)
 
@@ -152,9 +448,11 @@ Definition digitP (c : N) : Prop := is_digit c = true.
 Lemma digit_char : forall d, 0 <= d < 10 ->
   digitP (Z.to_N d + 48)%N /\ digit_val (Z.to_N d + 48)%N = d.
 Proof.
-  intros d H. unfold digitP, is_digit, digit_val. split.
-  - apply andb_true_iff. split; apply N.leb_le; lia.
-  - lia.
+  intros d H. unfold digitP.
+  assert (A : is_digit_ascii (Z.to_N d + 48)%N = true) by (unfold is_digit_ascii; lia).
+  split.
+  - apply is_digit_ascii_digit. exact A.
+  - rewrite (digit_val_ascii_eq _ A). unfold digit_val_ascii. lia.
 Qed.
 
 Lemma val_app : forall a x y, val a (x ++ y) = val (val a x) y.
@@ -234,9 +532,10 @@ Proof.
   rewrite (H c (or_introl eq_refl)). f_equal. apply IH. intros x Hx. apply H. right. exact Hx.
 Qed.
 
-Lemma digit_cases : forall c, digitP c -> In c [48; 49; 50; 51; 52; 53; 54; 55; 56; 57]%N.
+(* (the statement is about the ASCII digits: a digit of another script is not in this list) *)
+Lemma digit_cases : forall c, is_digit_ascii c = true -> In c [48; 49; 50; 51; 52; 53; 54; 55; 56; 57]%N.
 Proof.
-  intros c H. unfold digitP, is_digit in H. apply andb_true_iff in H. destruct H as [H1 H2].
+  intros c H. unfold is_digit_ascii in H. apply andb_true_iff in H. destruct H as [H1 H2].
   apply N.leb_le in H1. apply N.leb_le in H2. cbn [In].
   assert (K : (c = 48 \/ c = 49 \/ c = 50 \/ c = 51 \/ c = 52 \/ c = 53 \/ c = 54 \/ c = 55 \/ c = 56 \/ c = 57)%N) by lia.
   intuition auto.
@@ -248,8 +547,8 @@ Definition plain (c : N) : Prop := int_space c = false /\ dec_space c = false /\
 
 Lemma plain_digit : forall c, digitP c -> plain c /\ (c =? 43)%N = false /\ (c =? 45)%N = false.
 Proof.
-  intros c H. apply digit_cases in H. cbn [In] in H.
-  repeat (destruct H as [<-|H]; [repeat split; reflexivity|]). destruct H.
+  intros c H. unfold digitP in H. destruct (digit_not_space c H) as [S1 S2].
+  unfold plain. rewrite S1, S2. unfold is_digit in H. repeat split; lia.
 Qed.
 
 Lemma plain_minus : plain 45%N.
@@ -300,8 +599,13 @@ Lemma head_digit_not_special : forall c t, digitP c ->
   str_eqb l s_inf = false /\ str_eqb l s_infinity = false /\
   is_prefix s_nan l = false /\ is_prefix s_snan l = false.
 Proof.
-  intros c t H. apply digit_cases in H. cbn [In] in H.
-  repeat (destruct H as [<-|H]; [repeat split; reflexivity|]). destruct H.
+  intros c t H. unfold digitP in H. cbv zeta. cbn [map].
+  assert (L : lower c = c) by (unfold lower; unfold is_digit in H; replace ((65 <=? c) && (c <=? 90))%N with false by lia; reflexivity).
+  rewrite L. unfold s_inf, s_infinity, s_nan, s_snan. cbn [str_eqb is_prefix].
+  assert (E1 : (c =? 105)%N = false) by (unfold is_digit in H; lia).
+  assert (E2 : (110 =? c)%N = false) by (unfold is_digit in H; lia).
+  assert (E3 : (115 =? c)%N = false) by (unfold is_digit in H; lia).
+  rewrite E1, E2, E3. repeat split; reflexivity.
 Qed.
 
 Theorem parse_dec_print : forall x, parse_dec (print_num x) = Some (Fin (mant x) (expo x)).
